@@ -5,15 +5,14 @@ from pyvc.spec import contract, eq, implies, iff, forall, exists, indices, raise
 from CircuitCalculator.Network.network import Network, Branch
 from contracts.seq_network import any_branch, valid
 
-# ---- label -> matrix index maps for networks of any length (C03: the only place where label ORDER enters the analysis)
+# ---- source mappers: sorted list of identifiers (distinct only by the network invariant, which the layer does not propagate)
 
 from CircuitCalculator.Network.NodalAnalysis import label_mapping as lm
+from CircuitCalculator.Network import elements as elm
 
 
-@contract('CircuitCalculator.Network.NodalAnalysis.label_mapping.alphabetic_node_mapper', props=['C03', 'C01'], name='alphabetic_node_mapper_any_length')
-class node_mapper:
-    """Every node except the reference gets an index in [0, N); the map is strictly monotone in the label (hence one-to-one), so
-    renaming nodes permutes indices consistently and nothing else."""
+@contract('CircuitCalculator.Network.NodalAnalysis.label_mapping.alphabetic_current_source_mapper', props=['C03', 'C01'], name='alphabetic_current_source_mapper_any_length')
+class current_source_mapper:
     def inputs(g):
         return dict(branches=g.list('b', any_branch, min_len=1), zero=g.label('zero'), a=g.label('qa'), b=g.label('qb'))
 
@@ -22,15 +21,11 @@ class node_mapper:
 
     def call(f, branches, zero, a, b):
         m = f(Network(branches, zero))
-        return (m, a in m.keys, b in m.keys, zero in m.keys)
+        return (m, a in m.keys, b in m.keys)
 
     def ensures(result, branches, zero, a, b):
-        m, has_a, has_b, has_zero = result
-        is_node_a = exists(branches, lambda x: x.node1 == a or x.node2 == a)
-        is_node_b = exists(branches, lambda x: x.node1 == b or x.node2 == b)
+        m, has_a, has_b = result
         return {
-            'the reference node has no index': not has_zero,
-            'exactly the other nodes are mapped': iff(has_a, is_node_a and a != zero),
-            'indices in range': implies(has_a, lambda: 0 <= m[a] and m[a] < m.N),
-            'strictly monotone in the label': implies(has_a and has_b and a < b, lambda: m[a] < m[b]),
+            'exactly the current sources are mapped': iff(has_a, exists(branches, lambda x: x.id == a and elm.is_current_source(x.element))),
+            'strictly monotone in the identifier': implies(has_a and has_b and a < b, lambda: m[a] < m[b]),
         }
